@@ -24,6 +24,13 @@ def escapeChar (c : Nat) : Str :=
 
 def escape (t : Str) : Str := t.flatMap escapeChar
 
+/-- `format_attrs`: in an attribute value a line break or tab is also written as a character reference
+(an XML reader normalises the literal characters to blanks) -/
+def escapeAttrChar (c : Nat) : Str :=
+  if c = 10 then s "&#xA;" else if c = 13 then s "&#xD;" else if c = 9 then s "&#x9;" else escapeChar c
+
+def escapeAttr (t : Str) : Str := t.flatMap escapeAttrChar
+
 def stripPrefix? : Str → Str → Option Str
   | [], r => some r
   | _ :: _, [] => none
@@ -32,7 +39,8 @@ def stripPrefix? : Str → Str → Option Str
 /-- the references `escape` writes, and what an XML parser reads them back as -/
 def refs : List (Str × Nat) :=
   [(s "&quot;", 34), (s "&amp;", 38), (s "&apos;", 39), (s "&lt;", 60), (s "&gt;", 62),
-   (s "&#x2061;", 0x2061), (s "&#x2062;", 0x2062), (s "&#x2063;", 0x2063), (s "&#x2064;", 0x2064)]
+   (s "&#x2061;", 0x2061), (s "&#x2062;", 0x2062), (s "&#x2063;", 0x2063), (s "&#x2064;", 0x2064),
+   (s "&#xA;", 10), (s "&#xD;", 13), (s "&#x9;", 9)]
 
 def readRef (t : Str) : Option (Nat × Str) :=
   refs.findSome? fun (r, c) => (stripPrefix? r t).map fun rest => (c, rest)
